@@ -37,12 +37,18 @@ def main():
         nR = int(rng.choice([33, 49, 65, 97, 129]))
         nZ = int(rng.choice([33, 65, 97]))
         topo = str(rng.choice(["lsn", "usn", "cdn", "ldn", "udn", "udn2", "pair", "pair"]))
+        if t % 5 == 0:
+            topo = "pair"  # every shard drives the diagonal, strongly anisotropic saddle
         if topo == "pair":
             # two equal blobs at a random angle: the saddle between them has principal axes along /
             # across that direction and a curvature ratio that grows with the separation
             wq = float(rng.uniform(0.18, 0.22))
             sep = float(rng.uniform(2.3, 3.6)) * wq
             ang = float(rng.uniform(0, 2 * np.pi))
+            if t % 5 == 0:
+                # principal axes near 45 degrees from R/Z, curvature ratio 2(a/w)^2-1 > 3.5
+                sep = float(rng.uniform(3.1, 3.6)) * wq
+                ang = float(np.radians(45.0 + 90.0 * int(rng.integers(0, 4)) + rng.uniform(-12, 12)))
             cR, cZ = 1.5 + float(rng.uniform(-0.02, 0.02)), float(rng.uniform(-0.02, 0.02))
             # the first blob sits nearest the domain centre (primary O-point)
             cen = [[cR, cZ, 1.0, wq], [cR + sep * np.cos(ang), cZ + sep * np.sin(ang), 1.0, wq]]
